@@ -47,7 +47,7 @@ func (mapiter) Name() string     { return "mapiter" }
 func (mapiter) NewPlan() any     { return &MPlan{} }
 func (mapiter) Units(tier string) int {
 	if tier == "thorough" {
-		return 8000000
+		return 50000000
 	}
 	return 400000
 }
